@@ -62,18 +62,45 @@ def reachable(v, seen=None, acc=None):
     elif isinstance(v, Seq):
         for x in v.items:
             reachable(x, seen, acc)
+    elif isinstance(v, dict):          # the contents of a dict object
+        for x in v.values():
+            reachable(x, seen, acc)
     return acc
 
 
 # ---------------------------------------------------------------------------------------------
 # C16
 # ---------------------------------------------------------------------------------------------
+def _delegated(ctx, rule, construct, m, exc, clause):
+    """The constructor keeps state between the iterations of its pair loop (a dictionary created before the loop and read and
+    written inside it): one symbolic iteration cannot represent that, so this rule's extraction does not apply.  The same
+    clauses are decided by R16.v, which executes the real constructor on concrete two-component Systems; when that holds
+    the obligation is recorded as held by delegation (an assumption: what holds for every pair of two types holds for every
+    pair of n), otherwise it stays undecided here and R16.v reports."""
+    if 'carried from one iteration to the next' not in str(exc):
+        return False
+    from . import prism_sem
+    bad, und = prism_sem.verdict(ctx.prog)
+    if bad or und:
+        ctx.undecided(rule, construct, '%s (and R16.v on concrete types: %s)' % (exc, (bad or und)[0][:120]), m.loc())
+    else:
+        ctx.holds(rule, construct, 'the pair loop carries state between iterations, so the symbolic single-iteration extraction does '
+                  'not apply; %s decided by R16.v on concrete two-component Systems (fresh and re-used)' % clause, m.loc(),
+                  key='delegated', nontrivial=False)
+    return True
+
+
 def rule_copy_and_frame(ctx, rule='R16.c'):
     """PRISM.__init__ works on a deep copy: nothing reachable from the caller's System is written or retained"""
     cls = ctx.prog.cls(PRISMQ)
     m = cls.find_method('__init__')
     construct = PRISMQ + '.__init__'
-    worlds = explore(lambda preset: build_prism(ctx.prog, preset))
+    try:
+        worlds = explore(lambda preset: build_prism(ctx.prog, preset))
+    except Unsupported as e:
+        if _delegated(ctx, rule, construct, m, e, 'isolation'):
+            return
+        raise
     bad = []
     for d, ip, r in worlds:
         for e in r['events']:
@@ -106,7 +133,12 @@ def rule_wiring(ctx, rule='R16.w'):
     cls = ctx.prog.cls(PRISMQ)
     m = cls.find_method('__init__')
     construct = PRISMQ + '.__init__'
-    worlds = explore(lambda preset: build_prism(ctx.prog, preset))
+    try:
+        worlds = explore(lambda preset: build_prism(ctx.prog, preset))
+    except Unsupported as e:
+        if _delegated(ctx, rule, construct, m, e, 'wiring'):
+            return
+        raise
     seen_unset = set()
     bad = []
     sample = None
